@@ -110,6 +110,11 @@ pub fn gen_long(c: &mut Choices) -> i64 {
 const STR_PIECES: &[&str] = &["", "a", "hello world", "\u{e9}", "\u{4e2d}\u{6587}", "\u{1F600}", "\0", "\"\\\n", " "];
 
 pub fn gen_string(c: &mut Choices, cfg: &VgenCfg) -> String {
+    if cfg.ascii_bytes {
+        // defaults: plain ASCII (a later string->bytes promotion must not create non-ASCII byte defaults)
+        let k = c.pick(4);
+        return ["", "a", "hello world", " ", "x y", "0"].iter().cycle().skip(c.pick(6)).take(k).copied().collect();
+    }
     if cfg.long_strings && c.chance(1, 12) {
         let len = [63usize, 64, 65, 8191, 8192, 300][c.pick(6)];
         let ch = ['x', 'y', '0'][c.pick(3)];
